@@ -58,6 +58,8 @@ impl PostIoWork {
         for worker_output in self.worker_changes.into_iter() {
             for (_, leaf_entry) in worker_output.leaves_tracker.inner {
                 if let Some((leaf, pn)) = leaf_entry.inserted {
+                    #[cfg(nomt_verif)]
+                    crate::beatree::leaf_cache_verif::observe_insert(leaf_cache, pn, &leaf);
                     leaf_cache.insert(pn, leaf);
                 }
             }
